@@ -1,4 +1,5 @@
 import JominiModel.Model.Scalar
+import JominiModel.Spec.Scalar
 /-
 Helper lemmas for the scalar model (C11).
 -/
@@ -41,5 +42,156 @@ theorem toU64T2_allDigits (d : Bytes) (acc : Nat) (hd : allDigits d = true) (hac
         simp [h1, h2, this]
       · simp only [h1, h2, if_false, Bool.not_true, Bool.false_eq_true]
         exact ih _ hxs (by omega)
+
+
+/-- The accumulator loop consumes its whole input exactly when the input is all digits and
+the Horner value fits in a u64; the result then is that value. -/
+theorem toU64T2_ok_nil (d : Bytes) (acc r : Nat) (hacc : acc ≤ U64_MAX) :
+    toU64T2 d acc = .ok (r, []) ↔ allDigits d = true ∧ r = decFrom d acc ∧ r ≤ U64_MAX := by
+  constructor
+  · intro h
+    induction d generalizing acc with
+    | nil =>
+      simp only [toU64T2, Except.ok.injEq, Prod.mk.injEq, and_true] at h
+      subst h; simp [allDigits, decFrom, hacc]
+    | cons x xs ih =>
+      simp only [toU64T2] at h
+      by_cases hx : isDigit x = true
+      · simp only [hx, Bool.not_true, Bool.false_eq_true, if_false, overflowMulAdd] at h
+        by_cases h1 : acc * 10 > U64_MAX
+        · simp [h1] at h
+        · by_cases h2 : acc * 10 + digitVal x > U64_MAX
+          · simp [h1, h2] at h
+          · simp only [h1, h2, if_false] at h
+            have := ih _ (by omega) h
+            simp only [allDigits, List.all_cons, hx, Bool.true_and, decFrom]
+            exact this
+      · simp [hx] at h
+  · rintro ⟨hd, hr, hle⟩
+    rw [toU64T2_allDigits d acc hd hacc]
+    subst hr
+    simp [hle]
+
+theorem digitVal_le (c : UInt8) : digitVal c ≤ U64_MAX := by
+  have := c.toNat_lt
+  simp only [digitVal, U64_MAX]; omega
+
+theorem allDigits_cons (c : UInt8) (d : Bytes) :
+    allDigits (c :: d) = true ↔ isDigit c = true ∧ allDigits d = true := by
+  simp [allDigits]
+
+theorem decVal_cons (c : UInt8) (d : Bytes) : decVal (c :: d) = decFrom d (digitVal c) := by
+  simp [decVal, decFrom]
+
+/-- '+' and '-' are not digits. -/
+theorem not_isDigit_43 : isDigit 43 = false := by decide
+theorem not_isDigit_45 : isDigit 45 = false := by decide
+
+/-- `to_u64`, reduced to the accumulator loop. -/
+theorem toU64_ok_iff (s : Bytes) (v : Nat) :
+    toU64 s = .ok v ↔
+      ∃ c data, s = c :: data ∧
+        ((isDigit c = true ∧ toU64T2 data (digitVal c) = .ok (v, [])) ∨
+         (c = 43 ∧ toU64T2 data 0 = .ok (v, []))) := by
+  cases s with
+  | nil => simp [toU64]
+  | cons c data =>
+    simp only [toU64, List.cons.injEq]
+    by_cases hc : isDigit c = true
+    · have hne : c ≠ 43 := by rintro rfl; simp [not_isDigit_43] at hc
+      simp only [hc, if_true]
+      cases h : toU64T2 data (digitVal c) with
+      | error e => simp [hne, h]
+      | ok p =>
+        obtain ⟨r, left⟩ := p
+        cases left <;> simp [hne, h, hc] <;> grind
+    · simp only [hc, Bool.false_eq_true, if_false]
+      by_cases h43 : c = 43
+      · subst h43
+        cases h : toU64T2 data 0 with
+        | error e => simp [h, not_isDigit_43]
+        | ok p =>
+          obtain ⟨r, left⟩ := p
+          cases left <;> simp [h, not_isDigit_43] <;> grind
+      · simp [h43]; grind
+
+/-- `to_i64` after one arm of `to_i64_t`. -/
+theorem toI64Go_ok (data : Bytes) (sign : Int) (start : Nat) (v : Int) :
+    requireEmpty (toI64Go data sign start) = .ok v ↔
+    ∃ n, toU64T2 data start = .ok (n, []) ∧ n ≤ I64_MAX ∧ v = sign * (n : Int) := by
+  unfold toI64Go requireEmpty
+  cases h : toU64T2 data start with
+  | error e => simp
+  | ok p =>
+    obtain ⟨n, left⟩ := p
+    by_cases hn : n > I64_MAX
+    · simp [hn]; intro _ _ ; omega
+    · cases left <;> simp [hn] <;> grind
+
+theorem toI64_ok_iff (s : Bytes) (v : Int) :
+    toI64 s = .ok v ↔
+      ∃ c data n, s = c :: data ∧ n ≤ I64_MAX ∧
+        ((isDigit c = true ∧ toU64T2 data (digitVal c) = .ok (n, []) ∧ v = (n : Int)) ∨
+         (c = 45 ∧ toU64T2 data 0 = .ok (n, []) ∧ v = -(n : Int)) ∨
+         (c = 43 ∧ toU64T2 data 0 = .ok (n, []) ∧ v = (n : Int))) := by
+  cases s with
+  | nil => simp [toI64, toI64T, requireEmpty]
+  | cons c data =>
+    simp only [toI64, toI64T, List.cons.injEq]
+    by_cases hc : isDigit c = true
+    · have h45 : c ≠ 45 := by rintro rfl; simp [not_isDigit_45] at hc
+      have h43 : c ≠ 43 := by rintro rfl; simp [not_isDigit_43] at hc
+      simp only [hc, if_true]
+      rw [toI64Go_ok]
+      constructor
+      · rintro ⟨n, h1, h2, h3⟩
+        exact ⟨c, data, n, ⟨rfl, rfl⟩, h2, Or.inl ⟨hc, h1, by simpa using h3⟩⟩
+      · rintro ⟨c', data', n, ⟨rfl, rfl⟩, h2, h | h | h⟩
+        · exact ⟨n, h.2.1, h2, by simpa using h.2.2⟩
+        · exact absurd h.1 h45
+        · exact absurd h.1 h43
+    · simp only [hc, Bool.false_eq_true, if_false]
+      by_cases h45 : c = 45
+      · subst h45
+        simp only [beq_self_eq_true, if_true]
+        rw [toI64Go_ok]
+        constructor
+        · rintro ⟨n, h1, h2, h3⟩
+          exact ⟨45, data, n, ⟨rfl, rfl⟩, h2, Or.inr (Or.inl ⟨rfl, h1, by simpa using h3⟩)⟩
+        · rintro ⟨c', data', n, ⟨rfl, rfl⟩, h2, h | h | h⟩
+          · exact absurd h.1 hc
+          · exact ⟨n, h.2.1, h2, by simpa using h.2.2⟩
+          · exact absurd h.1 (by decide)
+      · by_cases h43 : c = 43
+        · subst h43
+          simp only [show ((43 : UInt8) == 45) = false by decide, beq_self_eq_true, if_true, Bool.false_eq_true, if_false]
+          rw [toI64Go_ok]
+          constructor
+          · rintro ⟨n, h1, h2, h3⟩
+            exact ⟨43, data, n, ⟨rfl, rfl⟩, h2, Or.inr (Or.inr ⟨rfl, h1, by simpa using h3⟩)⟩
+          · rintro ⟨c', data', n, ⟨rfl, rfl⟩, h2, h | h | h⟩
+            · exact absurd h.1 hc
+            · exact absurd h.1 (by decide)
+            · exact ⟨n, h.2.1, h2, by simpa using h.2.2⟩
+        · have e45 : (c == 45) = false := by simpa using h45
+          have e43 : (c == 43) = false := by simpa using h43
+          simp only [e45, e43, Bool.false_eq_true, if_false]
+          constructor
+          · intro h; simp [requireEmpty] at h
+          · rintro ⟨c', data', n, ⟨rfl, rfl⟩, h2, h | h | h⟩
+            · exact absurd h.1 hc
+            · exact absurd h.1 h45
+            · exact absurd h.1 h43
+
+/-- digits whose value exceeds `i64::MAX` make every arm of `to_i64_t` fail with `Overflow`
+(either inside the u64 accumulator or at `i64::try_from`). -/
+theorem toI64Go_overflow (data : Bytes) (sign : Int) (start : Nat) (hd : allDigits data = true)
+    (hs : start ≤ U64_MAX) (h : decFrom data start > I64_MAX) :
+    requireEmpty (toI64Go data sign start) = .error .overflow := by
+  unfold toI64Go requireEmpty
+  rw [toU64T2_allDigits data start hd hs]
+  by_cases h1 : decFrom data start ≤ U64_MAX
+  · simp [h1, h]
+  · simp [h1]
 
 end Jomini.Scalar
